@@ -709,6 +709,27 @@ example : ∃ tree, dispatch info (some (true, true)) .add (.var 0) (.npScalar 2
   exact ⟨tree, h1, by rw [h2]; decide +kernel⟩
 
 
+/-- unary minus on signed integer Vars: numpy's value for every operand value (wrap-around at INT_MIN) -/
+theorem neg_matches (s : Bool × Bool) (d : Nat) (hd : d ∈ [0, 1, 2, 3]) (x : Int) :
+    dispatch info (some s) .neg (.var d) .other = .ok (.un .Neg (.arg 0), d) ∧
+      eval info (.var d) .other x 0 (.un .Neg (.arg 0)) = some (d, npInt info .neg d x 0) := by
+  have hs : s ∈ [(true, true), (true, false), (false, true), (false, false)] := by
+    obtain ⟨a, b⟩ := s; cases a <;> cases b <;> simp
+  have h : ∀ s ∈ [(true, true), (true, false), (false, true), (false, false)], ∀ d ∈ [0, 1, 2, 3],
+      (match dispatch info (some s) .neg (.var d) .other with
+       | .ok (tree, r) => tree == Tree.un .Neg (.arg 0) && r == d
+       | .error _ => false) = true := by decide +kernel
+  have h' := h s hs d hd
+  refine ⟨?_, rfl⟩
+  cases hdisp : dispatch info (some s) .neg (.var d) .other with
+  | error e => simp [hdisp] at h'
+  | ok p =>
+    obtain ⟨tree, r⟩ := p
+    simp only [hdisp, Bool.and_eq_true, beq_iff_eq] at h'
+    obtain ⟨rfl, rfl⟩ := h'
+    rfl
+
+
 /-! ## Expressions with Python int literals on either side -/
 
 /-- Expressions over integer Vars **and Python int literals** on either side of an operator. -/
@@ -717,12 +738,14 @@ inductive ExprS
   | bin (op : Op) (l r : ExprS)
   | binR (op : Op) (l : ExprS) (v : Int)
   | binL (op : Op) (v : Int) (r : ExprS)
+  | neg (e : ExprS)            -- round 10: unary minus inside expressions
 
 def ExprS.intOnly : ExprS → Bool
   | .var _ => true
   | .bin op l r => intOps.contains op && l.intOnly && r.intOnly
   | .binR op l _ => intOps.contains op && l.intOnly
   | .binL op _ r => intOps.contains op && r.intOnly
+  | .neg e => e.intOnly
 
 /-- numpy (version 2 rules): a Python int next to an integer array takes the array's element type and must be
     representable in it (otherwise OverflowError: `none`). -/
@@ -752,6 +775,12 @@ def npExprS (env : Nat → Nat × Int) : ExprS → Option (Nat × Int)
           else if op == .floordiv && (y == 0 || (v == intMin dr && y == -1)) then none
           else some (dr, npInt info op dr v y)
       | none => none
+  | .neg e =>
+      -- numpy negates with wrap-around (`-INT_MIN = INT_MIN`); unsigned element types are the listed finding
+      -- `neg:unsigned:refused` (`neg_unsigned_counterexample`) and stay outside the claim
+      match npExprS env e with
+      | some (d, x) => if [0, 1, 2, 3].contains d then some (d, npInt info .neg d x 0) else none
+      | none => none
 
 /-- spox, promotion and constant promotion on: each application dispatched on the operand kinds alone. -/
 def spoxExprS (env : Nat → Nat × Int) : ExprS → Option (Nat × Int)
@@ -775,6 +804,13 @@ def spoxExprS (env : Nat → Nat × Int) : ExprS → Option (Nat × Int)
       | some (dr, y) =>
           (match dispatch info (some (true, true)) op (.pyInt v) (.var dr) with
            | .ok (tree, _) => eval info (.pyInt v) (.var dr) v y tree
+           | .error _ => none)
+      | none => none
+  | .neg e =>
+      match spoxExprS env e with
+      | some (d, x) =>
+          (match dispatch info (some (true, true)) .neg (.var d) .other with
+           | .ok (tree, _) => eval info (.var d) .other x 0 tree
            | .error _ => none)
       | none => none
 
@@ -884,6 +920,25 @@ theorem expr_scalars_match (env : Nat → Nat × Int)
           obtain ⟨tree, hd, he⟩ := arith_scalar_left true (by simp) op hop dr hdr c y hc hyr hdiv
           exact ⟨hdr, npInt_inRange op hop dr hdr c y, by simp only [spoxExprS, hsr, hd, he]⟩
       · simp [hc] at h
+  | .neg e, hio, t, v, h => by
+    simp only [ExprS.intOnly] at hio
+    simp only [npExprS] at h
+    cases hne : npExprS env e with
+    | none => simp [hne] at h
+    | some pe =>
+      obtain ⟨d, x⟩ := pe
+      obtain ⟨hd, _, hse⟩ := expr_scalars_match env henv e hio d x hne
+      simp only [hne] at h
+      by_cases hsg : [0, 1, 2, 3].contains d = true
+      · simp only [hsg, if_true, Option.some.injEq, Prod.mk.injEq] at h
+        obtain ⟨rfl, rfl⟩ := h
+        have hsg' : d ∈ [0, 1, 2, 3] := by simpa using hsg
+        obtain ⟨hdisp, hev⟩ := neg_matches (true, true) d hsg' x
+        refine ⟨hd, ?_, by simp only [spoxExprS, hse, hdisp, hev]⟩
+        exact wrap_inRange info d (ints_bits d hd) _
+      · have hsg' : [0, 1, 2, 3].contains d = false := by simpa using hsg
+        simp only [hsg', Bool.false_eq_true, if_false] at h
+        cases h
 
 -- non-vacuity: (x0 // 2 - 3) * x1 with x0 : int8 = -7, x1 : int32 = 5, and 100 - x0
 example : npExprS (fun i => if i = 0 then (0, -7) else (2, 5))
@@ -891,6 +946,9 @@ example : npExprS (fun i => if i = 0 then (0, -7) else (2, 5))
 example : npExprS (fun _ => (0, -7)) (.binL .sub 100 (.var 0)) = some (0, 107) := by decide +kernel
 -- a literal that does not fit the element type it meets: numpy raises OverflowError
 example : npExprS (fun _ => (0, -7)) (.binR .add (.var 0) 1000) = none := by decide +kernel
+-- round 10: unary minus inside an expression: -(x0 // 2) * 3 with x0 : int8 = -7 is 12; -(-128) wraps to -128
+example : npExprS (fun _ => (0, -7)) (.binR .mul (.neg (.binR .floordiv (.var 0) 2)) 3) = some (0, 12) ∧
+    spoxExprS (fun _ => (0, -128)) (.neg (.var 0)) = some (0, -128) := by decide +kernel
 
 
 /-! ## Scoping: after any blocks the previous settings are in force again -/
@@ -918,26 +976,6 @@ theorem outside_after_blocks (np : NpInfo) (xs : List Scoped) (op : Op) (a b : O
 theorem enclosing_after_inner (cur : Option (Bool × Bool)) (s : Bool × Bool) (xs : List Scoped) :
     (Scoped.probes cur (.block s (xs ++ [.probe]))).getLast? = some (some s) := by
   simp only [Scoped.probes]; rw [scoped_restored]; simp
-
-/-- unary minus on signed integer Vars: numpy's value for every operand value (wrap-around at INT_MIN) -/
-theorem neg_matches (s : Bool × Bool) (d : Nat) (hd : d ∈ [0, 1, 2, 3]) (x : Int) :
-    dispatch info (some s) .neg (.var d) .other = .ok (.un .Neg (.arg 0), d) ∧
-      eval info (.var d) .other x 0 (.un .Neg (.arg 0)) = some (d, npInt info .neg d x 0) := by
-  have hs : s ∈ [(true, true), (true, false), (false, true), (false, false)] := by
-    obtain ⟨a, b⟩ := s; cases a <;> cases b <;> simp
-  have h : ∀ s ∈ [(true, true), (true, false), (false, true), (false, false)], ∀ d ∈ [0, 1, 2, 3],
-      (match dispatch info (some s) .neg (.var d) .other with
-       | .ok (tree, r) => tree == Tree.un .Neg (.arg 0) && r == d
-       | .error _ => false) = true := by decide +kernel
-  have h' := h s hs d hd
-  refine ⟨?_, rfl⟩
-  cases hdisp : dispatch info (some s) .neg (.var d) .other with
-  | error e => simp [hdisp] at h'
-  | ok p =>
-    obtain ⟨tree, r⟩ := p
-    simp only [hdisp, Bool.and_eq_true, beq_iff_eq] at h'
-    obtain ⟨rfl, rfl⟩ := h'
-    rfl
 
 /-! ## How a block is opened: an explicit `False` is not "unset"; nothing is inherited from the enclosing block -/
 
@@ -1074,6 +1112,165 @@ theorem unary_operator_is_dispatch (np : NpInfo) (settings : Option (Bool × Boo
   have hf := genWiring_fwd op (by rcases hop with rfl | rfl <;> simp [allOps])
   simp [applyOperator, hf]
 
+/-! ## Round 10: the logical operators compose over whole expressions (every setting, any depth) -/
+
+/-- expressions over boolean Vars built with `& | ^` and `~` -/
+inductive LExpr
+  | var (i : Nat)
+  | not (e : LExpr)
+  | bin (op : Op) (l r : LExpr)
+
+/-- every binary operator of the expression is one of `& | ^` -/
+def LExpr.logicOnly : LExpr → Bool
+  | .var _ => true
+  | .not e => e.logicOnly
+  | .bin op l r => logicOps.contains op && l.logicOnly && r.logicOnly
+
+/-- numpy: `np.logical_and/or/xor/not` composed (`env i` = the value of boolean Var `i`) -/
+def npLExpr (env : Nat → Bool) : LExpr → Bool
+  | .var i => env i
+  | .not e => npLogical .not_ (npLExpr env e) false
+  | .bin op l r => npLogical op (npLExpr env l) (npLExpr env r)
+
+/-- spox: every application dispatched on the element types of its operands (the ones computed for the
+    sub-expressions), the emitted operator evaluated by ONNX semantics on the operands' values -/
+def spoxLExpr (s : Bool × Bool) (env : Nat → Bool) : LExpr → Option (Nat × Int)
+  | .var i => some (boolDt, b2i (env i))
+  | .not e =>
+      match spoxLExpr s env e with
+      | some (d, x) =>
+          (match dispatch info (some s) .not_ (.var d) .other with
+           | .ok (tree, _) => eval info (.var d) .other x 0 tree
+           | .error _ => none)
+      | none => none
+  | .bin op l r =>
+      match spoxLExpr s env l, spoxLExpr s env r with
+      | some (dl, x), some (dr, y) =>
+          (match dispatch info (some s) op (.var dl) (.var dr) with
+           | .ok (tree, _) => eval info (.var dl) (.var dr) x y tree
+           | .error _ => none)
+      | _, _ => none
+
+theorem settings_mem (s : Bool × Bool) : s ∈ [(true, true), (true, false), (false, true), (false, false)] := by
+  obtain ⟨a, b⟩ := s; cases a <;> cases b <;> simp
+
+theorem bool_mem (x : Bool) : x ∈ [false, true] := by cases x <;> simp
+
+/-- **`& | ^ ~` on boolean Vars are numpy's logical operators over whole expressions**: for every expression
+    tree (any depth, any re-use of Vars), every promotion setting and every assignment of truth values, the
+    graph spox emits is accepted, stays boolean at every intermediate and evaluates to numpy's value.
+    Lifts the one-application table `logical_matches` by induction. -/
+theorem logical_expr_matches (s : Bool × Bool) (env : Nat → Bool) :
+    ∀ e : LExpr, e.logicOnly = true → spoxLExpr s env e = some (boolDt, b2i (npLExpr env e))
+  | .var i, _ => rfl
+  | .not e, h => by
+    simp only [LExpr.logicOnly] at h
+    have ih := logical_expr_matches s env e h
+    have hm := (logical_matches s (settings_mem s) (npLExpr env e) (bool_mem _) false (bool_mem _)).2
+    cases hd : dispatch info (some s) .not_ (.var boolDt) .other with
+    | error err => simp [hd] at hm
+    | ok p =>
+      obtain ⟨tree, d⟩ := p
+      simp only [hd, Bool.and_eq_true, beq_iff_eq] at hm
+      simp only [spoxLExpr, ih, hd, npLExpr, hm.2]
+  | .bin op l r, h => by
+    simp only [LExpr.logicOnly, Bool.and_eq_true, List.contains_iff_mem] at h
+    obtain ⟨⟨hop, hl⟩, hr⟩ := h
+    have ihl := logical_expr_matches s env l hl
+    have ihr := logical_expr_matches s env r hr
+    have hm := (logical_matches s (settings_mem s) (npLExpr env l) (bool_mem _) (npLExpr env r) (bool_mem _)).1 op hop
+    cases hd : dispatch info (some s) op (.var boolDt) (.var boolDt) with
+    | error err => simp [hd] at hm
+    | ok p =>
+      obtain ⟨tree, d⟩ := p
+      simp only [hd, Bool.and_eq_true, beq_iff_eq] at hm
+      simp only [spoxLExpr, ihl, ihr, hd, npLExpr, hm.2]
+
+/-- Consequence: what is computed does not depend on the promotion settings of the block. -/
+theorem logical_expr_setting_independent (s s' : Bool × Bool) (env : Nat → Bool) (e : LExpr)
+    (h : e.logicOnly = true) : spoxLExpr s env e = spoxLExpr s' env e := by
+  rw [logical_expr_matches s env e h, logical_expr_matches s' env e h]
+
+/-! ## Round 10: numpy's result element type over whole expressions (floats, `/`, scalars included) -/
+
+/-- expressions over the operand kinds of `result_dtype_matches`: numeric Vars of all 11 dtypes (floating ones
+    included), Python int / float / bool, numpy scalars, under `+ - * / //` -/
+inductive DExpr
+  | leaf (o : Operand)
+  | bin (op : Op) (l r : DExpr)
+
+def DExpr.wf : DExpr → Bool
+  | .leaf o => operands.contains o
+  | .bin op l r => binOps.contains op && l.wf && r.wf
+
+/-- numpy: what the expression is as an operand of the next operator - a leaf is itself, an application with at
+    least one array operand is an array of numpy's result dtype (`none`: numpy raises, or both operands are plain
+    scalars, which is Python's own arithmetic and not the subject) -/
+def npD : DExpr → Option Operand
+  | .leaf o => some o
+  | .bin op l r =>
+      match npD l, npD r with
+      | some a, some b => if Operand.isVar a || Operand.isVar b then (npResult op a b).map .var else none
+      | _, _ => none
+
+/-- spox (promotion and constant promotion on): each application dispatched on the operand kinds computed so far -/
+def spoxD : DExpr → Option Operand
+  | .leaf o => some o
+  | .bin op l r =>
+      match spoxD l, spoxD r with
+      | some a, some b =>
+          if Operand.isVar a || Operand.isVar b then (resultDtype (dispatch info (some (true, true)) op a b)).map .var else none
+      | _, _ => none
+
+/-- numpy's result dtypes stay inside the 11 numeric dtypes (needed to iterate `result_dtype_matches`) -/
+theorem npResult_closed :
+    ∀ op ∈ binOps, ∀ a ∈ operands, ∀ b ∈ operands,
+      (match npResult op a b with | some t => numeric.contains t | none => true) = true := by
+  decide +kernel
+
+theorem var_mem_operands (t : Nat) (h : t ∈ numeric) : Operand.var t ∈ operands := by
+  simp only [operands, List.mem_append, List.mem_map]
+  exact Or.inl (Or.inl ⟨t, h, rfl⟩)
+
+/-- **The result element type is numpy's over whole expressions**: for every expression built with `+ - * / //`
+    from numeric Vars (integer and floating), Python ints / floats / bools and numpy scalars on either side, the
+    element type of every intermediate and of the result of the emitted graph is the one numpy gives - and spox
+    refuses exactly where numpy raises. Lifts `result_dtype_matches` by induction (values of floating results are
+    not the subject: see `floordiv_float_partial`). -/
+theorem expr_dtype_matches :
+    ∀ e : DExpr, e.wf = true → spoxD e = npD e ∧ ∀ o, npD e = some o → o ∈ operands
+  | .leaf o, h => by
+    simp only [DExpr.wf, List.contains_iff_mem] at h
+    exact ⟨rfl, fun o' ho => by simp only [npD, Option.some.injEq] at ho; subst ho; exact h⟩
+  | .bin op l r, h => by
+    simp only [DExpr.wf, Bool.and_eq_true, List.contains_iff_mem] at h
+    obtain ⟨⟨hop, hl⟩, hr⟩ := h
+    obtain ⟨el, ml⟩ := expr_dtype_matches l hl
+    obtain ⟨er, mr⟩ := expr_dtype_matches r hr
+    simp only [spoxD, npD, el, er]
+    cases hnl : npD l with
+    | none => simp
+    | some a =>
+      cases hnr : npD r with
+      | none => simp
+      | some b =>
+        have ha := ml a hnl
+        have hb := mr b hnr
+        by_cases hv : (Operand.isVar a || Operand.isVar b) = true
+        · simp only [hv, if_true]
+          rw [result_dtype_matches op hop a ha b hb hv]
+          refine ⟨rfl, ?_⟩
+          intro o ho
+          have hc := npResult_closed op hop a ha b hb
+          cases hres : npResult op a b with
+          | none => simp [hres] at ho
+          | some t =>
+            simp only [hres, Option.map_some, Option.some.injEq] at ho
+            subst ho
+            simp only [hres, List.contains_iff_mem] at hc
+            exact var_mem_operands t hc
+        · simp [hv]
+
 /-! ## What does not hold (listed findings), with the part that does -/
 
 /-- Known finding `neg:unsigned:refused`: numpy negates unsigned arrays (wrap-around), ONNX defines no
@@ -1120,5 +1317,15 @@ example : resultDtype (dispatch info (some (true, true)) .truediv (.var 2) (.var
 example : resultDtype (dispatch info (some (true, true)) .add (.var 7) (.var 3)) = some f64 := by decide +kernel
 example : isErr (dispatch info (some (false, true)) .add (.var 2) .pyFloat) .typeError = true := by decide +kernel
 example : isErr (dispatch info (some (true, true)) .add (.var 0) (.pyInt 1000)) .overflowError = true := by decide +kernel
+
+-- ~(x0 & x1) ^ (x0 | ~x1) with x0 = True, x1 = False: numpy True ^ True = False, and so does the emitted graph, promotion off
+example : npLExpr (fun i => [true, false].getD i false) (.bin .xor (.not (.bin .and_ (.var 0) (.var 1))) (.bin .or_ (.var 0) (.not (.var 1)))) = false ∧
+    spoxLExpr (false, false) (fun i => [true, false].getD i false)
+      (.bin .xor (.not (.bin .and_ (.var 0) (.var 1))) (.bin .or_ (.var 0) (.not (.var 1)))) = some (boolDt, 0) := by
+  decide +kernel
+
+-- (x0 + 1) / x1 * 2.5 with x0 : int8, x1 : int32 -> float64; uint64 + int8 -> float64 (numpy's rule), then // int16 stays float64
+example : npD (.bin .mul (.bin .truediv (.bin .add (.leaf (.var 0)) (.leaf (.pyInt 1))) (.leaf (.var 2))) (.leaf .pyFloat)) = some (.var 10) ∧
+    spoxD (.bin .floordiv (.bin .add (.leaf (.var 7)) (.leaf (.var 0))) (.leaf (.var 1))) = some (.var 10) := by decide +kernel
 
 end C17
